@@ -1109,6 +1109,83 @@ func (n *c01Nodes) runS2S(o *c01Out, text, expected, label string) string {
 	return next
 }
 
+// deepening round 3: one RegisterRevocation call on a scratch verifier (own empty leia store; the node's resolver, key resolver and JSON-LD
+// engine), followed by IsRevoked for the revocation's subject. The view carries what the model's registerRevocation reads, the signature
+// outcome is measured per key of the world.
+func (n *c01Nodes) regRev(o *c01Out, label string, rev credential.Revocation) {
+	tb := &c01Tables{urls: map[string]any{}, dids: map[string]any{}}
+	text, _ := json.Marshal(rev)
+	op := map[string]any{"op": "regrev", "label": label, "text": string(text), "now": time.Now().UnixMilli(), "at": nil}
+	line := ""
+	func() {
+		defer func() {
+			if r := recover(); r != nil {
+				line = "panic"
+			}
+		}()
+		typeOK := false
+		for _, t := range rev.Type {
+			if t == credential.RevocationType {
+				typeOK = true
+			}
+		}
+		view := map[string]any{"subject": rev.Subject.String(), "fragment": rev.Subject.Fragment, "hasContext": len(rev.Context) != 0, "typeOK": typeOK,
+			"issuer": rev.Issuer.String(), "date": ms(rev.Date), "hasProof": rev.Proof != nil, "vm": "", "proofDecodes": false}
+		var sigKeys []string
+		if rev.Proof != nil {
+			vm := rev.Proof.VerificationMethod.String()
+			view["vm"] = vm
+			tb.url(vm)
+			sd := proof.SignedDocument{}
+			ldp := proof.LDProof{}
+			if json.Unmarshal(text, &sd) == nil && sd.UnmarshalProofValue(&ldp) == nil {
+				view["proofDecodes"] = true
+				for _, name := range n.w.order {
+					if ldp.Verify(sd.DocumentWithoutProof(), signature.JSONWebSignature2020{ContextLoader: n.w.loader}, n.w.keys[name]) == nil {
+						sigKeys = append(sigKeys, name)
+					}
+				}
+			}
+		}
+		view["sigKeys"] = sigKeys
+		op["rev"] = view
+		dir := testio.TestDirectory(n.w.t)
+		st, err := verifier.NewLeiaVerifierStore(path.Join(dir, "rr.db"), storage.CreateTestBBoltStore(n.w.t, path.Join(dir, "rrb.db")))
+		if err != nil {
+			n.w.t.Fatal(err)
+		}
+		defer st.Close()
+		v := verifier.NewVerifier(st, n.w, n.kr, n.w.ldm, nil, revocation.NewStatusList2021(nil, nil, ""))
+		n.w.asOf = time.Now().UnixMilli()
+		err = v.RegisterRevocation(rev)
+		switch {
+		case err == nil:
+			line = "ok"
+		case strings.Contains(err.Error(), "validation failed"):
+			line = "rejected:invalid"
+		case err.Error() == "issuer of revocation is not the same as issuer of credential":
+			line = "rejected:issuer-not-credential-issuer"
+		case err.Error() == "verification method is not of issuer":
+			line = "rejected:vm-not-of-issuer"
+		case strings.HasPrefix(err.Error(), "unable to resolve key for revocation"):
+			line = "rejected:no-key"
+		case strings.HasPrefix(err.Error(), "unable to verify revocation signature"):
+			line = "rejected:bad-signature"
+		case strings.HasPrefix(err.Error(), "unable to store revocation"):
+			line = "rejected:store"
+		default:
+			line = "rejected:proof-malformed"
+		}
+		revoked, rerr := v.IsRevoked(rev.Subject)
+		line += " revoked=" + strconv.FormatBool(revoked)
+		if rerr != nil {
+			line += "+error"
+		}
+	}()
+	op["urls"], op["dids"] = tb.urls, tb.dids
+	o.emit(op, line)
+}
+
 // ---------------------------------------------------------------- mutation engine (generic JSON trees)
 
 type c01Mut struct {
@@ -2377,6 +2454,49 @@ func (n *c01Nodes) auditLegs(o *c01Out, rnd *rand.Rand, creds map[string]string)
 		}
 		o.emit(map[string]any{"op": "expect", "label": "tampered-revocation:" + tc.tag, "expect": "revocation:rejected", "kind": "tampered-revocation"}, line)
 	}
+	// deepening round 3: the same and more revocations, each offered to RegisterRevocation of a scratch verifier (model correspondence)
+	n.regRev(o, "regrev:genuine", genuine)
+	for _, tc := range tampered {
+		n.regRev(o, "regrev:"+tc.tag, tc.rev)
+	}
+	for _, tc := range []struct {
+		tag string
+		m   map[string]any
+	}{
+		{"resigned-by-issuer-other-key", resign(base(func(m map[string]any) {}), didI+"#k2")},
+		{"resigned-victim-by-issuer", resign(base(func(m map[string]any) { m["subject"] = victim.ID.String() }), didI+"#k1")},
+		{"no-fragment", resign(base(func(m map[string]any) { m["subject"] = didI }), didI+"#k1")},
+		{"no-type", resign(base(func(m map[string]any) { m["type"] = []any{"Other"} }), didI+"#k1")},
+		{"no-context-no-type", resign(base(func(m map[string]any) { delete(m, "@context"); delete(m, "type") }), didI+"#k1")},
+		{"no-issuer", base(func(m map[string]any) { delete(m, "issuer") })},
+		{"no-proof", base(func(m map[string]any) { delete(m, "proof") })},
+		{"year-1-date", base(func(m map[string]any) { m["date"] = "0001-01-01T00:00:00Z" })},
+		{"dated-before-the-key", resign(base(func(m map[string]any) { m["date"] = time.Unix(c01T0-5000, 0).UTC().Format(time.RFC3339) }), didI+"#k1")},
+		{"other-party-whole", resign(base(func(m map[string]any) { m["subject"] = didO + "#1"; m["issuer"] = didO }), didO+"#k1")},
+		{"subject-prefix-lookalike", resign(base(func(m map[string]any) { m["subject"] = didI + "x#1" }), didI+"#k1")},
+		{"vm-prefix-lookalike", func() map[string]any {
+			r2 := resign(base(func(m map[string]any) {}), didI+"#k1")
+			r2["proof"].(map[string]any)["verificationMethod"] = didI + "x#k1"
+			return r2
+		}()},
+		{"unknown-vm-fragment", func() map[string]any {
+			r2 := resign(base(func(m map[string]any) {}), didI+"#k1")
+			r2["proof"].(map[string]any)["verificationMethod"] = didI + "#nokey"
+			return r2
+		}()},
+		{"garbage-jws", func() map[string]any {
+			r2 := resign(base(func(m map[string]any) {}), didI+"#k1")
+			r2["proof"].(map[string]any)["jws"] = "eyJhbGciOiJFUzI1NiJ9..AAAA"
+			return r2
+		}()},
+		{"reason-changed-after-signing", func() map[string]any {
+			r2 := resign(base(func(m map[string]any) {}), didI+"#k1")
+			r2["reason"] = "changed"
+			return r2
+		}()},
+	} {
+		n.regRev(o, "regrev:"+tc.tag, toRev(tc.m))
+	}
 	// ... so the victim is still valid, and the genuinely revoked credential is revoked once the genuine revocation is registered
 	n.run(o, c01Call{kind: "vc", text: fresh["human:ldp_vc"], at: &at, allowUntrusted: true, checkSig: true, label: "victim-after-tampered-revocations", base: "victim-after-tampered-revocations"})
 	line := "revocation:rejected"
@@ -3504,6 +3624,11 @@ func (n *c01Nodes) replay(o *c01Out, file string, prefix string) {
 			n.trustFile(o, rows)
 		case "case-variant":
 			c01CaseVariantOp(o, prefix+str("label"), str("text"), str("into"))
+		case "regrev":
+			var rv credential.Revocation
+			if json.Unmarshal([]byte(str("text")), &rv) == nil {
+				n.regRev(o, prefix+str("label"), rv)
+			}
 		case "s2s-vp":
 			n.runS2S(o, str("text"), str("expected"), prefix+str("label"))
 		case "revstore":
